@@ -104,6 +104,13 @@ impl SwiftField for Field13C {
     where
         Self: Sized,
     {
+        // The parser works with byte offsets: refuse multi-byte characters up front
+        if !input.is_ascii() {
+            return Err(ParseError::InvalidFormat {
+                message: "Field 13C must contain only ASCII characters".to_string(),
+            });
+        }
+
         // Minimum: /8c/4!n1!x4!n = / + 8 + / + 4 + 1 + 4 = 18 chars minimum
         if input.len() < 10 {
             // At minimum we need /X/ + time + sign + offset
@@ -242,6 +249,13 @@ impl SwiftField for Field13D {
     where
         Self: Sized,
     {
+        // The parser works with byte offsets: refuse multi-byte characters up front
+        if !input.is_ascii() {
+            return Err(ParseError::InvalidFormat {
+                message: "Field 13D must contain only ASCII characters".to_string(),
+            });
+        }
+
         // Must be exactly 15 characters: 6 (date) + 4 (time) + 1 (sign) + 4 (offset)
         if input.len() != 15 {
             return Err(ParseError::InvalidFormat {
